@@ -187,6 +187,23 @@ func ruleC04(c *Ctx, r *Report) {
 			}
 		})
 	}
+	// the command walker and the namespace rewriter are applied to command documents only
+	for _, wf := range []*ssa.Function{cmdFn, nsFn} {
+		if wf == nil {
+			continue
+		}
+		for _, call := range c.callersOf(wf) {
+			if call.Parent() != root {
+				r.Bad("C04-R1", fmt.Sprintf("%s:applies(%s)", call.Parent().Name(), wf.Name()), c.InstrPos(call), wf.Name()+" is applied outside the line function")
+				continue
+			}
+			k, ok := getKeyOfValue(call.Call.Args[0])
+			isCmd := ok && (k == "command" || k == "cmd" || k == "originatingCommand")
+			r.Check(isCmd, "C04-R1", fmt.Sprintf("%s:applies(%s,attr.%s)", root.Name(), wf.Name(), k), c.InstrPos(call),
+				wf.Name()+" is applied to the command document read from attr."+k,
+				wf.Name()+" is applied to something other than a command document ("+describeArg(call.Call.Args[0])+"): members of other documents with the same key names are rewritten")
+		}
+	}
 	// the line function hands back the parsed entry itself
 	var entry ssa.Value
 	allInstrs(root, func(i ssa.Instruction) {
